@@ -1,6 +1,6 @@
 (* C01/Property.v — property theorems only. *)
 From Coq Require Import Bool List String.
-From Verif Require Import Base.Py Base.Py2 Base.Str C01.Model C01.Spec C01.Proofs C01.Source2 C01.Source2pa.
+From Verif Require Import Base.Py Base.Py2 Base.Str C01.Model C01.Spec C01.Proofs C01.Keys C01.Source2 C01.Source2pa.
 From VerifGen Require Import C01Tables C01Src2 C01Src2p C01Src2a.
 Import ListNotations.
 
@@ -375,3 +375,89 @@ Theorem c01_source2_parse_assertion_exc :
   forall q okc sch, outcome_of_name (verify_all_exc q okc sch) = verify_all q okc sch.
 Proof. exact verify_all_exc_outcome. Qed.
 Print Assumptions c01_source2_parse_assertion_exc.
+
+(* ---- round 6 (a): which ds:Signature the engine verifies versus which one the library inspects ----------
+   xmlsec1 verifies the FIRST ds:Signature in document order at or below --node-id; the profile validators read the
+   Signature CHILD.  With the guard of the code (_is_the_only_signature_child) the verdict computed through the
+   engine's choice (Model.check_signature_with, Model.engine_verify) is the verdict of Model.check_signature, for every
+   signature shape, every signature of a descendant (ahead of or after the child; valid, altered, by any key). *)
+Theorem c01_engine_tie :
+  forall only w ok g, check_signature_with only_signature_child only w ok g = check_signature only w ok g.
+Proof. exact check_signature_engine. Qed.
+Print Assumptions c01_engine_tie.
+
+(* a guard that only counts the Signature CHILDREN agrees on every element whose Signature stands where the schema puts it *)
+Theorem c01_engine_tie_children_only_in_place :
+  forall only w ok g, in_place (shp g) = true ->
+  check_signature_with one_signature_child only w ok g = check_signature_with only_signature_child only w ok g.
+Proof. exact children_only_agrees_in_place. Qed.
+Print Assumptions c01_engine_tie_children_only_in_place.
+
+(* a signature of a descendant AFTER the element's own Signature child does not change the verdict *)
+Theorem c01_nested_after_irrelevant :
+  forall only w ok k i cr rf ca t o nk nb,
+  check_signature only w ok {| signer := k; ki := i; corrupt := cr; shp := {| refs := rf; c14n := ca; trs := t; obj := o; xsig := XIn false nk nb |} |}
+  = check_signature only w ok {| signer := k; ki := i; corrupt := cr; shp := {| refs := rf; c14n := ca; trs := t; obj := o; xsig := XNone |} |}.
+Proof. exact nested_after_irrelevant. Qed.
+Print Assumptions c01_nested_after_irrelevant.
+
+(* ---- round 6 (b): the keys that open an EncryptedAssertion (configured / per request through outstanding_certs) ----
+   THE PROPERTY for every configuration, every Response (any list of assertions), every recipient certificate of its
+   EncryptedAssertions and every outstanding_certs argument: an identity only from assertions the receiver can read,
+   all their signatures and the Response's verifying and the options met; a Response that satisfies the options, is
+   otherwise valid and is encrypted for a key the receiver holds - configured or made for the request - is accepted. *)
+Theorem c01_keys : forall c x, spec_x c x (parse_xmsg c x).
+Proof. exact policy_holds_x. Qed.
+Print Assumptions c01_keys.
+
+Theorem c01_spec_keys_reflect : forall c x i, spec_x_b c x i = true <-> spec_x c x i.
+Proof. exact spec_x_b_iff. Qed.
+Print Assumptions c01_spec_keys_reflect.
+
+(* a receiver that holds the key: the verdict of the earlier rounds, whichever key it is and however it was handed over *)
+Theorem c01_keys_readable : forall c x, can_read x = true -> parse_xmsg c x = parse_mmsg c (xm x).
+Proof. exact readable_is_mmsg. Qed.
+Print Assumptions c01_keys_readable.
+
+Theorem c01_keys_irrelevant :
+  forall c mm r o r' o', holds_key o r = true -> holds_key o' r' = true ->
+  parse_xmsg c {| xm := mm; x_rcpt := r; x_oc := o |} = parse_xmsg c {| xm := mm; x_rcpt := r'; x_oc := o' |}.
+Proof. exact keys_irrelevant. Qed.
+Print Assumptions c01_keys_irrelevant.
+
+(* what the receiver cannot open contributes nothing: the verdict is the walk of the plain assertions, under the number
+   rule of what the Response carries *)
+Theorem c01_keys_unreadable :
+  forall c x, can_read x = false ->
+  parse_xmsg c x = count_ok (mm_asl (xm x)) && nonempty_l (plain_of (mm_asl (xm x)))
+                   && parse_walk true c (with_asl (xm x) (plain_of (mm_asl (xm x)))).
+Proof. exact unreadable_plain_only. Qed.
+Print Assumptions c01_keys_unreadable.
+
+(* the keys the code actually tries (request keys, then the configured ones) are the keys the receiver holds *)
+Theorem c01_keys_tried : forall o r, opens (request_keys o) r = holds_key o r.
+Proof. exact opens_holds. Qed.
+Print Assumptions c01_keys_tried.
+
+(* clients and sequences; the cases of the earlier rounds are the instance "configured key, no outstanding_certs" *)
+Theorem c01_keys_client : forall k xs, spec_client_x k xs (client_run_x k xs).
+Proof. exact client_holds_x. Qed.
+Print Assumptions c01_keys_client.
+
+Theorem c01_spec_keys_client_reflect : forall k xs ids, spec_client_x_b k xs ids = true <-> spec_client_x k xs ids.
+Proof. exact spec_client_x_b_iff. Qed.
+Print Assumptions c01_spec_keys_client_reflect.
+
+Theorem c01_keys_embed :
+  forall k ms ids, client_run_x k (map plain_msg ms) = client_run_mm k ms
+                   /\ spec_client_x_b k (map plain_msg ms) ids = spec_client_mm_b k ms ids.
+Proof. intros k ms ids. split; [apply client_run_plain | apply spec_client_x_b_plain]. Qed.
+Print Assumptions c01_keys_embed.
+
+(* a retry pass that is not given the keys of the request (seeded change C01-b) agrees as long as the configured key is
+   the recipient *)
+Theorem c01_keys_retry_bare_configured :
+  forall c mm o, parse_xmsg_retry_bare c {| xm := mm; x_rcpt := DConfigured; x_oc := o |}
+                 = parse_xmsg c {| xm := mm; x_rcpt := DConfigured; x_oc := o |}.
+Proof. exact retry_bare_agrees_configured. Qed.
+Print Assumptions c01_keys_retry_bare_configured.
